@@ -24,4 +24,8 @@ theorem node_size_formula (p : BPTree.Params) (n : Nat) :
     BPTree.nodeSize p n = Gen.fn_node_serialized_size_with_keys p.K n BPTree.nodeMetaSize := rfl
 theorem offset_size_is_u64 : BPTree.offsetSize = 8 ∧ BPTree.nodeMetaSize = 8 := by decide
 
+/-- the search inside a serialized inner node compares keys in the key type's own order (`K::Ref`), like the search
+    in the leaves and like the in-memory index: the model has ONE order (`Keyed.key`) for all three -/
+theorem node_search_order : Gen.NODE_SEARCH_CMP = ["key.as_ref_key()", "K::Ref::from"] := by decide
+
 end Pearl.Tie.C09
